@@ -106,6 +106,18 @@ impl Timer {
     }
 }
 
+impl Drop for Timer {
+    fn drop(&mut self) {
+        // A timer dropped while still registered (for instance as a part of a composite source
+        // whose registration failed half-way) must not leave its timeout behind in the wheel.
+        if let Some(registration) = self.registration.take() {
+            if let Ok(mut wheel) = registration.wheel.try_borrow_mut() {
+                wheel.cancel(registration.counter);
+            }
+        }
+    }
+}
+
 impl EventSource for Timer {
     type Event = Instant;
     type Metadata = ();
